@@ -91,7 +91,7 @@ def emit_machine(prog, m, out, is_root, opts):
             md = {'p': 0, 'q': 1}
             en = ' '.join('vf_send<%s, %d>(e, f);' % (ev2, md[mode]) for ev2, mode in st.entry_send)
             ex = ' '.join('vf_send<%s, %d>(e, f);' % (ev2, md[mode]) for ev2, mode in st.exit_send)
-            body = ['template <class E, class F> void on_entry(E const& e, F& f) { vf_log(VF_ENTRY(%d), vf_pay(e)); %s }' % (st.idx, en),
+            body = ['enum { vf_state_index = %d };' % st.idx, 'template <class E, class F> void on_entry(E const& e, F& f) { vf_log(VF_ENTRY(%d), vf_pay(e)); %s }' % (st.idx, en),
                     'template <class E, class F> void on_exit(E const& e, F& f) { vf_log(VF_EXIT(%d), vf_pay(e)); %s }' % (st.idx, ex)]
         if st.flags: body.append('typedef mpl::vector<%s > flag_list;' % ', '.join(st.flags))
         if st.deferred: body.append('typedef mpl::vector<%s > deferred_events;' % ', '.join(st.deferred))
@@ -376,6 +376,7 @@ def entry_c_(prog, ent):
         m = prog.machines[ent[1]]
         return ('(%d + VFN(vf_sid)(%d))' % (4000 + 64 * ent[1], m.states[ent[2]].idx), ent[3])
     if k == 'C': return ('%d' % (5000 + ent[1]), ent[2])
+    if k == 'S': return ('8000', ANY if (ent[1] is None or ent[2] is None) else str(ent[1] * 256 + ent[2]))
     if k == 'F': return ('%d' % (6000 + ent[1]), str(ent[2]))     # probe: code 6000+probe id, arg value
     if k == 'Q': return ('%d' % (7000 + 2 * ent[1] + ent[2]), None)
     raise ValueError(ent)
